@@ -238,6 +238,24 @@ func holderOf(item interface{}) *_refHolder {
 // n elements make the cost of a message quadratic in its size.
 var errUnfinishedList = newCodecError("readRef", "a list containing itself (a reference to a list that is still being read, as a list element or map entry) is not supported")
 
+// errUnfinishedMap is returned for a reference to a map that is still being read where the
+// destination has another map type: the reference would have to become a copy of the map as
+// read so far, which is not the map, and n such copies of a map of n entries make the cost of a
+// message quadratic in its size. (Where no copy is needed - an interface slot, a destination of
+// the map's own type - a map may contain itself.)
+var errUnfinishedMap = newCodecError("readRef", "a reference to a map that is still being read cannot be converted to another map type")
+
+// unfinishedMap check whether item is a reference to a map that is still being read and that
+// a destination of type typ would have to copy
+func (d *Decoder) unfinishedMap(item interface{}, typ reflect.Type) bool {
+	rv, ok := item.(reflect.Value)
+	if !ok || typ.Kind() != reflect.Map {
+		return false
+	}
+	m := RawValue(rv)
+	return m.IsValid() && m.Kind() == reflect.Map && m.Type() != typ && !d.mapDone[m.Pointer()]
+}
+
 // mapRead record that the map has been read completely
 func (d *Decoder) mapRead(m reflect.Value) {
 	if d.mapDone == nil {
